@@ -216,6 +216,7 @@ func (r *SparseInt32Matrix) MdotM(a, b ConstMatrix) Matrix {
     panic("result and argument must be different matrices")
   }
   t1 := NullScalar(r.ElementType())
+  r.Reset()
   for it := a.ConstIterator(); it.Ok(); it.Next() {
     i, j := it.Index()
     for is := b.ConstIteratorFrom(j, 0); is.Ok(); is.Next() {
